@@ -485,7 +485,15 @@ def main(argv=None):
     if a.only:
         configs = [c for c in configs if fnmatch.fnmatch(c[0], a.only)]
     canaries = list(mod.canaries(a.tier, seed)) if hasattr(mod, 'canaries') and not a.only else []
-    tasks = [(modname, cid, p, a.tier, False, i < 6) for i, (cid, p) in enumerate(configs)]
+    # functions_encoded: the repository functions entered on the first path of one configuration per family
+    # (family = the first two components of the configuration id), at most 60 traced configurations
+    seen_fam, traced = set(), set()
+    for cid, _ in configs:
+        fam = '/'.join(cid.split('/')[:2])
+        if fam not in seen_fam and len(traced) < 60:
+            seen_fam.add(fam)
+            traced.add(cid)
+    tasks = [(modname, cid, p, a.tier, False, cid in traced) for cid, p in configs]
     tasks += [(modname, cid, p, a.tier, True, False) for cid, p in canaries]
     cfg_timeout = getattr(mod, 'CFG_TIMEOUT', {}).get(a.tier, 120 if a.tier == 'quick' else 900)
     nproc = a.jobs or min(16, os.cpu_count() or 4)
